@@ -149,6 +149,10 @@ def regNp (M N up : Nat) (ms : Option R) (ccReal : FImg R → FImg R → Nat →
     let shift := if up ≤ 1 then shiftNp1 M N cs raw else shiftNpUp M N up cs raw (ccF Fr Fi)
     (shift, rampAt M N Fi shift.1 shift.2)
 
+/-- `real(ifft2(F_ref * conj(F_im)))` — the `ccReal` the code (and the driver) uses -/
+def ccRealDft (M N : Nat) : FImg R → FImg R → Nat → Nat → R :=
+  fun Fr Fi => idft2ReAt M N (ccF Fr Fi)
+
 def sumPairs : List (R × R) → R × R
   | [] => (Num.zero, Num.zero)
   | d :: ds => let s := sumPairs ds; (d.1 + s.1, d.2 + s.2)
